@@ -339,9 +339,9 @@ def check_c08(trace, res: Result, hs: Hasher):
             else:
                 res.violate("C08", "not-done", expected="fault", got="still running")
             return
+        # both fault: which address the error *reports* is C02's / C15's business, not C08's
         if five["exc"]["address"] != model["exc"]["address"]:
-            res.violate("C08", "fault-address", expected=model["exc"]["address"], got=five["exc"]["address"],
-                        model_exc=model["exc"], five_exc=five["exc"])
+            res.probes["model and pipeline report different fault addresses (not a C08 matter)"] += 1
         return
     if five["exc"]:
         res.violate("C08", "spurious-fault", expected=None, got=five["exc"])
@@ -357,8 +357,10 @@ def check_c08(trace, res: Result, hs: Hasher):
     if not _cmp_summaries(res, "C08", "final-state", a, b, ["regs", "mem", "output", "exit_code"], stale=model["stale"]):
         return
     if len(five["ticks"]) != model["total_ticks"]:
-        res.violate("C08", "total-ticks", expected=model["total_ticks"], got=len(five["ticks"]))
-        return
+        # C08 speaks about which register writes an instruction observes, not about the cycle count: a
+        # timing difference that never changes a value is not a violation (if it can change one, some
+        # program shows it in the comparison above)
+        res.probes["total ticks differ from the model although all values agree"] += 1
     # (3) nop-padded program == single-cycle mode
     padded = ir.pad_with_nops(trace["prog"], 2)
     ref2 = run_ref(trace, dc, ic, cap=3 * trace["cfg"].get("cap", REF_CAP), prog=padded)
@@ -370,10 +372,9 @@ def check_c08(trace, res: Result, hs: Hasher):
     res.sim["ticks"] += len(five2["ticks"])
     res.probes["nop-padded program compared with single-cycle mode"] += 1
     if ref2["exc"] or five2["exc"]:
-        ea = ref2["exc"] and ref2["exc"]["address"]
-        eb = five2["exc"] and five2["exc"]["address"]
-        if ea != eb:
-            res.violate("C08", "padded-fault-address", expected=ea, got=eb)
+        if bool(ref2["exc"]) != bool(five2["exc"]):
+            res.violate("C08", "padded-fault-differs", expected=ref2["exc"], got=five2["exc"],
+                        note="one of single-cycle mode / interlock-free pipeline faults on the nop-padded program, the other does not")
         return
     if not five2["done"]:
         res.violate("C08", "padded-not-done", expected="done", got="running")
